@@ -1134,6 +1134,13 @@ mzd_t *mzd_transpose(mzd_t *DST, mzd_t const *A) {
     return mzd_copy(DST, A);
 
   rci_t maxsize = MAX(A->nrows, A->ncols);
+  if (__M4RI_UNLIKELY(mzd_is_dangerous_window(A))) {
+    /* the kernels read whole words: bits of the parent beyond the last column of A must not be seen */
+    mzd_t *T = mzd_copy(NULL, A);
+    DST      = mzd_transpose(DST, T);
+    mzd_free(T);
+    return DST;
+  }
   if (__M4RI_LIKELY(!mzd_is_dangerous_window(DST))) {
     _mzd_transpose(DST->data, A->data, DST->rowstride, A->rowstride, A->nrows, A->ncols, maxsize);
     return DST;
